@@ -549,3 +549,12 @@ def read_path_refusals_and_constant_side(ctx):
                   f'{f.qualname}:constant side', t.ast, 'the constant is returned where it exists, the driver is read otherwise',
                   f'`{src(t.ast)}`: the described constant is returned on the side where the parameter has none (None is sent), and constant parameters are read '
                   'from the driver', f)
+
+
+@rule('C06.R9', min_instances=6)
+def emitted_container_values_use_the_member_transport_form(ctx):
+    """shared with C02.R2: every value an array / tuple / struct exports went through its members' export_value (and
+    import_value on the way in), on every return path: the description promises the members' transport form (integer for a
+    scaled member), a fast path that returns the elements as they are emits values the described datainfo refuses"""
+    from sa.rules import c02
+    c02.container_delegation(ctx)
